@@ -14,7 +14,7 @@ EXTENDS N2KDecoder, Json, IOUtils, TLC
 Traces == JsonDeserialize(IOEnv.IN_FILE)
 SeqSet(q) == {q[k] : k \in 1..Len(q)}
 CfgOf(c) == [mode |-> c.mode, nums |-> SeqSet(c.nums), ids |-> SeqSet(c.ids), mfrMode |-> c.mfrMode,
-             mfrs |-> SeqSet(c.mfrs), netmap |-> c.netmap]
+             mfrs |-> SeqSet(c.mfrs), mfrsIn |-> SeqSet(c.mfrsIn), netmap |-> c.netmap]
 Unfiltered(c) == [c EXCEPT !.mode = "none", !.nums = {}, !.ids = {}]
 
 VARIABLES t, l, sF, sU, bad
